@@ -48,6 +48,41 @@ type keyring struct {
 	wML   *mldsa.PrivateKey
 	mML   *mldsa.PrivateKey
 	order []int
+	// signature blobs (timestamp || signature) presented again verbatim: sigVariant sReuse+index
+	blobs  [][]byte
+	blobIx map[string]int
+	// ground truth: key id -> "origin/size/root hex" of every checkpoint for which a VERIFYING cosignature of that key
+	// exists (made by the harness with the witness's / mirror's private key, or by the witness in an add-checkpoint answer)
+	cosigned map[int]map[string]bool
+	// signature blob -> the checkpoint it was made for (for messages)
+	madeFor map[string]string
+}
+
+func treeKey(origin, size string, root tlog.Hash) string {
+	return origin + "/" + size + "/" + fmt.Sprintf("%x", root[:])
+}
+
+// reuse returns the variant "this very signature blob again"
+func (kr *keyring) reuse(sig []byte) sigVariant {
+	if i, ok := kr.blobIx[string(sig)]; ok {
+		return sReuse + sigVariant(i)
+	}
+	kr.blobs = append(kr.blobs, append([]byte{}, sig...))
+	kr.blobIx[string(sig)] = len(kr.blobs) - 1
+	return sReuse + sigVariant(len(kr.blobs)-1)
+}
+
+func (kr *keyring) noteCosigned(id int, origin, size string, root tlog.Hash, sig []byte) {
+	if id != kW1 && id != kW2 && id != kM {
+		return
+	}
+	if kr.cosigned[id] == nil {
+		kr.cosigned[id] = map[string]bool{}
+	}
+	kr.cosigned[id][treeKey(origin, size, root)] = true
+	if _, ok := kr.madeFor[string(sig)]; !ok {
+		kr.madeFor[string(sig)] = fmt.Sprintf("size %s root %x", size, root[:4])
+	}
 }
 
 type detReader struct{ r *mrand.Rand }
@@ -69,7 +104,7 @@ func newMLDSA(r *mrand.Rand) *mldsa.PrivateKey {
 }
 
 func newKeyring(r *mrand.Rand) *keyring {
-	kr := &keyring{keys: map[int]*key{}}
+	kr := &keyring{keys: map[int]*key{}, blobIx: map[string]int{}, cosigned: map[int]map[string]bool{}, madeFor: map[string]string{}}
 	add := func(k *key) { kr.keys[k.id] = k; kr.order = append(kr.order, k.id) }
 	cos := func(id int, name string, s *torchwood.CosignatureSigner) {
 		vk := s.Verifier().String()
@@ -138,6 +173,7 @@ const (
 	sGood       sigVariant = iota // signer.Sign(text)
 	sGarbage                      // right name and key hash, random signature bytes
 	sTransplant                   // a valid signature of ANOTHER text
+	sReuse      sigVariant = 100  // sReuse+i: the signature blob kr.blobs[i], verbatim (a line seen before, under whatever text)
 )
 
 type sigSpec struct {
@@ -200,6 +236,10 @@ func (kr *keyring) build(ns noteSpec, r *mrand.Rand) builtNote {
 		k := kr.keys[s.key]
 		var sig []byte
 		var err error
+		switch {
+		case s.v >= sReuse:
+			sig = kr.blobs[s.v-sReuse]
+		}
 		switch s.v {
 		case sGood:
 			sig, err = k.signer.Sign([]byte(text))
@@ -224,6 +264,9 @@ func (kr *keyring) build(ns noteSpec, r *mrand.Rand) builtNote {
 		}
 		lines = append(lines, sigLine(k.name, k.verifier.KeyHash(), sig))
 		valid := k.verifier.Verify([]byte(text), sig)
+		if valid && ns.kind == "ckpt" && ns.ext == "" {
+			kr.noteCosigned(s.key, ns.origin, ns.size, ns.root, sig)
+		}
 		abs = append(abs, fmt.Sprintf("%d+%s", s.key, map[bool]string{true: "v", false: "i"}[valid]))
 	}
 	sa := strings.Join(abs, ",")
